@@ -144,7 +144,33 @@ func checkC20(c *Ctx) {
 				isCount := func(k string) bool {
 					return strings.HasPrefix(k, kPartLen) || lenOfVotes[k] || strings.HasPrefix(k, "invoke (hs.IDSet).Len(")
 				}
-				isQ := func(k string) bool { return strings.HasPrefix(k, kQuorumSize) }
+				// QuorumSize() itself, a local holding it, or a parameter of a private helper that every caller binds to it
+				isQ := func(k string) bool {
+					if strings.HasPrefix(k, kQuorumSize) {
+						return true
+					}
+					if hf == fn || len(k) < 2 || k[0] != 'p' {
+						return false
+					}
+					idx := 0
+					for _, ch := range k[1:] {
+						if ch < '0' || ch > '9' {
+							return false
+						}
+						idx = idx*10 + int(ch-'0')
+					}
+					callers := callIndexOf(p).callers[hf]
+					if len(callers) == 0 || callIndexOf(p).asValue[hf] {
+						return false
+					}
+					for _, r := range callers {
+						ci, ok := r.Instr.(ssa.CallInstruction)
+						if !ok || idx >= len(ci.Common().Args) || !strings.HasPrefix(NewKeyer(p, r.In).Key(ci.Common().Args[idx]), kQuorumSize) {
+							return false
+						}
+					}
+					return true
+				}
 				switch {
 				case isCount(kx) && isQ(ky), isCount(ky) && isQ(kx):
 					nGood++
